@@ -278,6 +278,39 @@ func c04Programs(tier string) []*Spec {
 			out = append(out, sp)
 		}
 	}
+	// more rows than the terminal shows for several frames, then the bars at the bottom leave: the clipped bars at
+	// the top become visible and must be drawn as single clean rows
+	for _, rf := range []string{"manual", "auto"} {
+		sp := &Spec{Name: "c04-tall-drop", Refresh: rf, Q: -1, Pty: true, TermW: 30, TermH: 3}
+		for i := 0; i < 4; i++ {
+			sp.Bars = append(sp.Bars, BarSpec{Total: 3})
+			sp.Main = append(sp.Main, Op{K: "add", B: i})
+		}
+		r := func(ops []Op, k int) []Op {
+			if rf == "manual" {
+				for j := 0; j < k; j++ {
+					ops = append(ops, Op{K: "refresh"})
+				}
+			}
+			return ops
+		}
+		ops := r([]Op{{K: "incr", B: 0, N: 1}, {K: "incr", B: 1, N: 1}}, 3)
+		ops = r(append(ops, Op{K: "abort", B: 2, F: true}, Op{K: "abort", B: 3, F: true}, Op{K: "barwait", B: 3}), 3)
+		ops = r(append(ops, Op{K: "incr", B: 0, N: 2}, Op{K: "incr", B: 1, N: 2}), 3)
+		sp.Clients = [][]Op{ops}
+		out = append(out, sp)
+	}
+	// a decorator wider than the terminal: cut with an ellipsis, the row still fits
+	for _, rf := range []string{"manual", "auto"} {
+		sp := &Spec{Name: "c04-narrow-decor", Refresh: rf, Q: -1, Pty: true, TermW: 24, TermH: 6}
+		sp.Bars = []BarSpec{{Total: 2, Pre: []DecorSpec{{Widths: []int{30}}}, App: []DecorSpec{{Widths: []int{5}}}}, {Total: 2, Pre: []DecorSpec{{Widths: []int{10}}}, App: []DecorSpec{{Widths: []int{20}}}}}
+		sp.Main = []Op{{K: "add", B: 0}, {K: "add", B: 1}}
+		sp.Clients = [][]Op{completeOps(0, 2), completeOps(1, 2)}
+		if rf == "manual" {
+			sp.Clients = append(sp.Clients, []Op{{K: "refresh"}, {K: "refresh"}, {K: "refresh"}, {K: "refresh"}})
+		}
+		out = append(out, sp)
+	}
 	return out
 }
 
@@ -311,7 +344,7 @@ func c18Programs(tier string) []*Spec {
 	}
 	for _, o := range []outp{{false, 0, 0}, {true, 40, 12}} {
 		for _, rf := range []string{"manual", "auto"} {
-			for _, variant := range []string{"plain", "ext", "nopop", "write", "same-cycle", "abort"} {
+			for _, variant := range []string{"plain", "ext", "nopop", "write", "same-cycle", "abort", "rm", "queued"} {
 				for _, perm := range perms {
 					if variant == "same-cycle" && perm[0] != 0 {
 						continue
@@ -326,12 +359,20 @@ func c18Programs(tier string) []*Spec {
 						if variant == "nopop" && i == 0 {
 							bs.NoPop = true
 						}
+						if variant == "rm" && i == 0 {
+							bs.Rm = true // pop mode wins over remove-on-complete: the bar is popped and stays on screen
+						}
 						sp.Bars = append(sp.Bars, bs)
 						sp.Main = append(sp.Main, Op{K: "add", B: i})
 					}
 					// a bar that keeps running while the others finish
 					sp.Bars = append(sp.Bars, BarSpec{Total: 9})
 					sp.Main = append(sp.Main, Op{K: "add", B: n})
+					if variant == "queued" {
+						// a successor queued behind bar 0 takes its place (it is not popped: it is still running)
+						sp.Bars = append(sp.Bars, BarSpec{Total: 9, After: 1})
+						sp.Main = append(sp.Main, Op{K: "add", B: n + 1})
+					}
 					var ops []Op
 					for _, b := range perm {
 						if variant == "abort" && b == 1 {
@@ -347,6 +388,9 @@ func c18Programs(tier string) []*Spec {
 						}
 					}
 					ops = append(ops, Op{K: "incr", B: n, N: 9})
+					if variant == "queued" {
+						ops = append(ops, Op{K: "incr", B: n + 1, N: 9})
+					}
 					if rf == "manual" {
 						ops = append(ops, Op{K: "refresh"}, Op{K: "refresh"}, Op{K: "refresh"}, Op{K: "refresh"})
 					}
